@@ -163,16 +163,19 @@ def get_trace(job, ob):
     return None, "trace run did not reproduce the failure (it may depend on a fatal check that was filtered)"
 
 
-def extract_inputs(vals, names):
-    """Last assigned value per wanted lhs (exact name or 'name[' prefix for
-    arrays) among assignments made inside the harness."""
-    got = {}
+def extract_inputs(vals, names, fn_prefer=("harness", "vacuity")):
+    """Last assigned value per wanted lhs (exact name or 'name[' prefix for arrays).  Assignments made inside the
+    harness win over assignments to a same-named parameter/local of the unit under contract."""
+    got, pref = {}, {}
     for lhs, data, binary, fn, line in vals:
         if lhs is None:
             continue
         base = lhs.split('[')[0].split('.')[0]
         if base in names or lhs in names:
             got[lhs] = (data, binary)
+            if fn in fn_prefer:
+                pref[lhs] = (data, binary)
+    got.update(pref)
     return got
 
 
